@@ -47,6 +47,8 @@ def run(tier):
         'the backward forms: d - (last - first)); these are the only trusted models',
         'pointer differences of iterators into one array are exact multiples of the element size (the IR says `sdiv exact`)',
         'only normal-return paths are judged here; exceptional exits are C05/C06',
+        'entry contract: the container invariant of C02 holds on entry (size <= capacity; used only to conclude that a container '
+        'whose capacity is zero on a path is empty)',
     ]
     ck.finish(
         'Structural clauses only - the VALUES elements hold are run-time data and whole histories are not replayed (the property as a whole '
